@@ -1870,6 +1870,30 @@ def h_la_generic_tight(g):
     return _h(inst('la_generic', lits, step_args=((mk(1), mk(1)),)), 'tight-combination')
 
 
+@hostile('la_generic')
+def h_la_generic_int_rounding(g):
+    """integer rows  k*x >= c1  and  -k*x >= c2  (k >= 2, bounds that are NOT multiples of k, of either sign) chosen so
+    that exactly one integer x0 satisfies both: the clause of their negations is not valid.  A checker that tightens
+    k*x >= c to the next multiple of k must round towards +infinity for negative c as well; rounding one multiple
+    too far makes the (1, 1) combination contradictory."""
+    from kernel.term import Int, Not
+    r = g.rng
+    x = r.choice(g.ints)
+    k = r.choice([2, 2, 3, 4, 5])
+    x0 = r.randint(-4, 4)
+    j1, j2 = r.randint(1, k - 1), r.randint(0, k - 1)
+    if r.random() < 0.5:
+        j1, j2 = j2, j1
+    c1, c2 = k * x0 - j1, -k * x0 - j2          # k*x >= c1 <=> x >= x0 ; -k*x >= c2 <=> x <= x0
+    kx, nkx = Int(k) * x, Int(-k) * x
+    a1 = Int(c1) <= kx          # the form the checker reads (it refuses >=)
+    a2 = Int(c2) <= nkx
+    lits = [Not(a1), Not(a2)]
+    if r.random() < 0.5:
+        lits.reverse()
+    return _h(inst('la_generic', lits, step_args=((Int(1), Int(1)),)), 'integer-rounding-of-a-non-multiple-bound')
+
+
 @hostile('comp_simplify')
 def h_comp_simplify(g):
     """comparisons of numerals at the boundary with the wrong truth value"""
